@@ -19,8 +19,9 @@ RULE = ("Hypothesis-generated control schedules: superoperators from {unitary ki
 TECHNIQUE = "Hypothesis property-based testing against a reference model of the control semantics (explicit joint evolution)"
 LEVEL_TEXT = ("Generated control schedules on single systems and chains are compared at every step with an explicit "
               "evolution implementing the documented semantics; exploration at small sizes.")
-LEVEL_NOTE = ("Mixed int/float controls on the same step and distinct float times rounding to the same step are not "
-              "generated (no documented order). Trusts vlib/refs/anc.py and vlib/refs/chain.py.")
+LEVEL_NOTE = ("Int-step and float-time controls on the same step and side are generated only with mutually commuting maps (no "
+              "documented relative order; each must still act exactly once); distinct float times rounding to the same step "
+              "are not generated. Trusts vlib/refs/anc.py and vlib/refs/chain.py.")
 ASSUMPTIONS = [
     "documented semantics: pre-measurement control acts before the recorded state of that step, post after it",
     "controls stacked on the same step act in insertion order",
@@ -39,10 +40,24 @@ def s_groups(draw, d, N, allow_float=True, sites=None):
         if (step, post, site) in seen:
             continue
         seen.add((step, post, site))
-        kind = draw(st.sampled_from(["int", "float"])) if allow_float else "int"
+        kind = draw(st.sampled_from(["int", "float", "mixed"])) if allow_float else "int"
         g = {"step": step, "post": post, "site": site, "kind": kind,
-             "delta": draw(st.sampled_from([-0.4, -0.25, 0.0, 0.1, 0.4])) if kind == "float" else 0.0,
-             "ops": [draw(ancgen.control_op_spec(d if not sites else 2)) for _ in range(draw(st.integers(1, 3)))]}
+             "delta": draw(st.sampled_from([-0.4, -0.25, 0.0, 0.1, 0.4])) if kind != "int" else 0.0}
+        if kind == "mixed":
+            # int-step and float-time controls on the same step and side have no documented relative order: only
+            # mutually commuting maps are generated (diagonal phase kicks, dephasing, identity); each acts exactly once
+            dd = d if not sites else 2
+            nops = draw(st.integers(2, 3))
+            g["ops"] = [draw(st.one_of(
+                st.builds(lambda ph: {"kind": "unitary", "u": {"kind": "phases", "ph": ph}},
+                          st.lists(st.integers(0, 7), min_size=dd, max_size=dd)),
+                st.builds(lambda p_: {"kind": "dephase", "p": p_}, st.sampled_from([0.25, 0.5])),
+                st.just({"kind": "identity"}))) for _ in range(nops)]
+            g["op_kinds"] = [draw(st.sampled_from(["int", "float"])) for _ in range(nops)]
+            if len(set(g["op_kinds"])) == 1:
+                g["op_kinds"][0] = "float" if g["op_kinds"][0] == "int" else "int"
+        else:
+            g["ops"] = [draw(ancgen.control_op_spec(d if not sites else 2)) for _ in range(draw(st.integers(1, 3)))]
         groups.append(g)
     return groups
 
@@ -78,9 +93,10 @@ def run_single(case):
     ctl = oqupy.Control(d)
     ref = {}
     for g in case["groups"]:
-        for o in g["ops"]:
+        for j, o in enumerate(g["ops"]):
             S = ancgen.build_control_op(o, d)
-            if g["kind"] == "int":
+            kind_j = g["op_kinds"][j] if g["kind"] == "mixed" else g["kind"]
+            if kind_j == "int":
                 ctl.add_single(int(g["step"]), S, post=g["post"])
             else:
                 ctl.add_single(float(t0 + (g["step"] + g["delta"]) * dt), S, post=g["post"])
@@ -92,7 +108,9 @@ def run_single(case):
             ref[g["step"]] = (pre, post)
     stacked = _noncommuting_stack(case["groups"], d)
     edge = any(g["step"] in (0, N) for g in case["groups"])
-    flt = any(g["kind"] == "float" for g in case["groups"])
+    flt = any(g["kind"] != "int" for g in case["groups"])
+    if any(g["kind"] == "mixed" for g in case["groups"]):
+        out.label("mixed-int-float-same-step")
     out.nontrivial = stacked or edge or flt
     out.label("stacked-noncommuting" if stacked else "no-stack", "edge-step" if edge else "inner-step",
               "float-time" if flt else "int-step", "env" if envs else "no-env")
